@@ -121,7 +121,7 @@ fn pair_ok(base: u64, voucher: raffle::Voucher) -> bool {
 fn execute(case: &Case) -> Verdict {
     let mut v = Verdict { ok: true, ..Default::default() };
     let pid = std::process::id();
-    let dir_a = Path::new(crate::engine::VERIF_ROOT).join(format!("harness/target/vp-tmp/c19-{pid}"));
+    let dir_a = crate::engine::verif_root().join(format!("harness/target/vp-tmp/c19-{pid}"));
     let _ = std::fs::create_dir_all(&dir_a);
     let dir_b = {
         let d = PathBuf::from(format!("/dev/shm/vp-c19-{pid}"));
